@@ -21,7 +21,7 @@ struct Case {
 pub fn run(ctx: &Ctx) -> i32 {
     let lace = Lace::new(&ctx.lace_bin, &ctx.scratch);
     let mut cases: Vec<Case> = Vec::new();
-    let nmax = ctx.tier.pick(4, 6);
+    let nmax = ctx.tier.pick(5, 6);
     // (i) assembly fails at statement position k of n
     for n in 1..=nmax {
         for k in 0..n {
